@@ -57,7 +57,7 @@ func (t *Tape) Intn(n int) int {
 }
 
 func (t *Tape) Bool() bool          { return t.Intn(2) == 1 }
-func (t *Tape) Chance(pct int) bool { return t.Intn(100) < pct } // 0 => false: shrinks towards "no"
+func (t *Tape) Chance(pct int) bool { return t.Intn(100) >= 100-pct } // value 0 => false: shrinks towards "no"
 func (t *Tape) Range(lo, hi int) int { // inclusive
 	if hi <= lo {
 		return lo
